@@ -170,7 +170,12 @@ Proof.
     destruct b; [|reflexivity]. destruct (Byte.eqb tb x00) eqn:E; [reflexivity|rewrite E; reflexivity].
   - destruct (w_bool_ok PCompact b w0 eq_refl) as (l & Hw & _ & Hr).
     assert (l = [if b then x01 else x02]) as -> by (destruct b; cbv in Hw; injection Hw as <-; reflexivity).
-    cbn [sp sencC]. rewrite Hr by exact Hi. reflexivity.
+    cbn [sp sencC]. destruct b; [rewrite Hr by exact Hi; reflexivity|].
+    destruct (Byte.eqb tb x00); [|rewrite Hr by exact Hi; reflexivity].
+    (* false spelled 0, as in the protocol document *)
+    destruct rcx as [la st pb pf]. destruct Hi as [Hb Hpf]. cbn [r_pbool r_pfield] in Hb, Hpf. subst pb pf.
+    cbn [app r_bool rc r_pbool r_last r_stack]. unfold set_rc. cbn [rbuf rc].
+    change x00 with (z2b 0). rewrite r_byte_rt by lia. reflexivity.
 Qed.
 
 Lemma SRB_i8 p z : SRB p (SI8 z).
@@ -574,12 +579,11 @@ Proof.
   split; vm_compute; reflexivity.
 Qed.
 
-(* One alternative the TEXT of the compact specification allows is NOT accepted: the text encodes a
-   bool ELEMENT (of a list / set / map) `false` as the byte 0, every Apache implementation writes 2
-   (and reads "anything but 1" as false); Thrift/Spec.v follows the implementations (1 / 2).
-   pilota's compact read_bool rejects the byte 0 (InvalidData): a writer that followed the text to
-   the letter would not be understood. *)
-Lemma compact_bool_elem_zero_rejected :
-  read_val PCompact 9 TList (mkS [x11; x00] r0) = Err EInvalidData /\
+(* The TEXT of the compact specification encodes a bool ELEMENT (of a list / set / map) `false` as the byte 0, while
+   every Apache implementation writes 2 (and reads "anything but 1" as false).  Both spellings are legal encodings
+   in Thrift/Spec.v (annotation byte 00 of SBool selects 0) and both are read back (fix F-03a: pilota's compact
+   read_bool used to reject 0). *)
+Lemma compact_bool_elem_zero_accepted :
+  read_val PCompact 9 TList (mkS [x11; x00] r0) = Ok (VList TBool [VBool false], mkS [] r0) /\
   read_val PCompact 9 TList (mkS [x11; x02] r0) = Ok (VList TBool [VBool false], mkS [] r0).
 Proof. split; vm_compute; reflexivity. Qed.
